@@ -198,7 +198,20 @@ func newKit3() *kit {
 			n := native3([]solidG{pos, neg})
 			return s3{&model3d.SubtractedSolid{Positive: n[0], Negative: n[1]}}
 		},
-		optimize: func(ops []solidG) solidG { return s3{model3d.JoinedSolid(native3(ops)).Optimize()} },
+		optimize: func(ops []solidG) solidG {
+			// the caller keeps its operand list: Optimize must not reorder or overwrite it
+			list := native3(ops)
+			before := append([]model3d.Solid{}, list...)
+			res := model3d.JoinedSolid(list).Optimize()
+			for i := range list {
+				if !sameOperand(list[i], before[i]) {
+					optimizeReordered.Add(1)
+					break
+				}
+			}
+			optimizeChecked.Add(1)
+			return s3{res}
+		},
 		mux:      func(ops []solidG) muxG { return &mux3{model3d.NewSolidMux(native3(ops))} },
 		staged: func(ops []solidG, cuts []int) (solidG, solidG) {
 			all := native3(ops)
